@@ -246,6 +246,12 @@ Print Assumptions adjacency_unsafe_neg_neg.
 
 (* ================= the front half: ast_expand and static_eval ================= *)
 
+(* the std library side of the `**` swap: std.math.pow takes the exponent first, for every dialect whose
+   template the executable streams use *)
+Theorem std_pow_exponent_first : pow_template_ok d_sqlite && pow_template_ok d_generic = true.
+Proof. vm_compute. reflexivity. Qed.
+Print Assumptions std_pow_exponent_first.
+
 (* operators become std function calls without changing the documented meaning; `**` swaps its operands
    (math.pow exponent base) and the templates swap them back *)
 Theorem expand_sound : forall env e, eval_r env (expand e) = eval_doc env e.
